@@ -121,13 +121,13 @@ PROPS["C18"] = {
 PROPS["C01"] = {
     "lean": ["PP.Props.C01", "PP.Props.C03", "PP.Props.C09b", "PP.Tie.Scan", "PP.Tie.Reader"],
     "what": "Goroutine dump parse fidelity: roundtrip / roundtrip_snapshot - for every non-empty dump description in the decidable domain WF and every print configuration (LF/CRLF, any blank indentation, tab or n>=1 spaces file indent, gp/m/mp and fp/sp/pc annotations, offsets, both elision markers, unavailable stacks, creators with/without parent, inlined frames, nested/elided/'_'/'?' arguments to depth 5, escaped package paths), scanning the text printed by the spec printer yields exactly the described goroutines, forwards nothing, leaves nothing, ends with EOF; first_only_first; isPtr_iff (for every input line, pointer-likeness is a function of the value); one matcher lemma per line kind (matchHeader_print, parseArgs_print, funcInit_print, matchFile_print ...); with C09b's scanSnapshot_eq_L the result holds for every delivery, including lines longer than the buffer. Harness: the Lean spec printer is compared byte for byte (and its expectation field by field) with the Go generator, whose dumps are parsed by the real ScanSnapshot under random delivery schedules and compared with their descriptions; the full variant product on a fixed dump; lines around and beyond the 16 KiB buffer; low-level streams S1-S4/S6 (every matcher, Func.Init, parseArgs, scan line by line) against the implementation.",
-    "partial": "the printer spec is a model of runtime/traceback.go written from its source and validated only against the parser and (C20's live stream) the running runtime's own dumps, not proved equal to the runtime; the domain WF excludes symbols containing '/', '%' or a trailing CR in the function-name part, status texts containing ']' or ', ', and file paths starting with a space under space indentation (where the text is genuinely ambiguous).",
+    "partial": "the printer spec is a model of runtime/traceback.go written from its source; it is validated on every run against the running runtime (the harness dumps its own goroutines in known states with runtime.Stack, parses them, and the printer model must reproduce the runtime's text from the parsed description, code offsets aside) but not proved equal to the runtime; the domain WF excludes symbols containing '/', '%' or a trailing CR in the function-name part, status texts containing ']' or ', ', and file paths starting with a space under space indentation (where the text is genuinely ambiguous).",
     "trusted": ["the spec printer as a model of the Go runtime's traceback printer", "Go regexp engine (hand matchers tied by pins + S1)"],
 }
 PROPS["C08"] = {
     "lean": ["PP.Props.C08", "PP.Props.C03", "PP.Props.C09b", "PP.Tie.Scan"],
     "what": "Race report parse fidelity: race_roundtrip / race_roundtrip_snapshot - for every report description in the decidable domain raceWF (>= 1 operation, >= 1 creation section, distinct operation ids, sections in any number and order, LF/CRLF) scanning the printed text yields one goroutine per operation in order with id, address, read/write kind, state, operation stack and creation stack, reaches done on the closing separator and hands back what follows; race_first_only_first; for every scanner state and line: creator_lookup_sound (a creation section only ever modifies the first goroutine with that id), unknown_creator_is_error (never a misattribution), race_goroutine_steps_only_gi. Harness: generated reports (2..4 operations, subsets/orders of creation sections, running/finished, surrounding text) parsed by the real code under random deliveries against their descriptions; unknown-creator mutants; Lean spec printer vs Go generator.",
-    "partial": "operations by the main goroutine ('by main goroutine:') are not supported by the parser and are outside the property's stated format; the printer is a model of tsan's Go report printer validated against the repository's captured report, not proved equal to tsan.",
+    "partial": "operations by the main goroutine ('by main goroutine:') are not supported by the parser and are outside the property's stated format; the printer is a model of tsan's Go report printer, validated on every run against the real race detector (a racy program is built with -race, its report parsed, and the printer model must reproduce tsan's text from the parsed snapshot, code offsets aside), not proved equal to tsan.",
     "trusted": ["the spec printer as a model of tsan's report printer"],
 }
 
